@@ -450,6 +450,8 @@ func R5(pkgs ...string) func(p *core.Prog) *core.Result {
 			}
 			ors := map[*ssa.BinOp]*orObs{}
 			wraps := map[*ssa.BinOp]bool{}
+			shifts := map[*ssa.BinOp]*ival{}
+			shiftBits := map[*ssa.BinOp]int{}
 			env := &ienv{num: newNumbering(), sizes: sizes}
 			if hi := lenHi[pk.Name()]; hi != nil && f.Signature.Recv() != nil && namedOf(f.Signature.Recv().Type()) != nil && namedOf(f.Signature.Recv().Type()).Obj().Name() != "lengthStack" {
 				env.loadBound = func(ld *ssa.UnOp) (ival, bool) {
@@ -503,6 +505,28 @@ func R5(pkgs ...string) func(p *core.Prog) *core.Result {
 						o.multi = true
 					}
 				case *ssa.BinOp:
+					// SHIFT-RANGE: a shift by a non-constant count must stay below the operand's width
+					if x.Op == token.SHL || x.Op == token.SHR {
+						if _, isC := x.Y.(*ssa.Const); !isC {
+							if bits, _, ok := intTypeInfo(x.X.Type(), sizes); ok {
+								if _, xc := x.X.(*ssa.Const); xc {
+									// an untyped constant operand takes the width of the result
+									if b2, _, ok2 := intTypeInfo(x.Type(), sizes); ok2 {
+										bits = b2
+									}
+								}
+								iv, _ := env.get(s, x.Y)
+								if cur, seen := shifts[x]; !seen {
+									c := iv
+									shifts[x] = &c
+								} else {
+									h := hull(*cur, iv)
+									shifts[x] = &h
+								}
+								shiftBits[x] = bits
+							}
+						}
+					}
 					// digit accumulation on the text->number path: an unsigned add/mul that can wrap needs a wrap check
 					if pk.Name() == "json" && strings.HasPrefix(core.FuncName(f), "parse") && (x.Op == token.ADD || x.Op == token.MUL) {
 						if bits, signed, ok := intTypeInfo(x.Type(), sizes); ok && !signed && bits == 64 && env.mayWrap(s, x) {
@@ -742,6 +766,30 @@ func R5(pkgs ...string) func(p *core.Prog) *core.Result {
 				}
 				r.Fail(".CONV", key, pos, fmt.Sprintf("%s: %s: %s can be reached with the operand anywhere in %s, outside the target range %s: the number changes its value", fkey, kind, desc, o.union, dst), "")
 			}
+			// shift counts
+			{
+				var sl []*ssa.BinOp
+				for b := range shifts {
+					sl = append(sl, b)
+				}
+				sort.Slice(sl, func(i, j int) bool { return instrPos(sl[i]) < instrPos(sl[j]) })
+				if len(sl) > 0 && f.Signature.Recv() == nil && f.Parent() == nil && !token.IsExported(f.Name()) && !referencedInModule(p, f) {
+					// an unexported package-level function nothing refers to cannot run
+					r.Stats["variable_shifts_in_unreferenced_functions"] += len(sl)
+					sl = nil
+				}
+				for i, b := range sl {
+					total++
+					r.Stats["variable_shifts"]++
+					pos := p.Pos(token.Pos(instrPos(b)))
+					iv, bits := shifts[b], shiftBits[b]
+					if iv.lo.Sign() >= 0 && iv.hi.Cmp(bi(int64(bits-1))) <= 0 {
+						r.Ok(".SHIFT-RANGE", pos, fmt.Sprintf("%s: shift count in %s stays below the %d-bit width", fkey, iv, bits))
+					} else {
+						r.Fail(".SHIFT-RANGE", fmt.Sprintf("%s|shift#%d", fkey, i+1), pos, fmt.Sprintf("%s shifts a %d-bit value by a count that can be anywhere in %s: from %d on the result is 0 (or all sign bits) - a per-level flag kept in the bits of one word is lost beyond that depth, silently", fkey, bits, iv, bits), "")
+					}
+				}
+			}
 			// wrap checks
 			{
 				var wl []*ssa.BinOp
@@ -793,6 +841,7 @@ func R5(pkgs ...string) func(p *core.Prog) *core.Result {
 				}
 			}
 		}
+		shiftRegisters(p, r, in)
 		if in["ubjson"] {
 			ubjsonMarkerTables(p, r)
 			scanExit(p, r)
@@ -1392,4 +1441,91 @@ func markerPayloadPairs(f *ssa.Function) map[ssa.Instruction]markerPair {
 		}
 	}
 	return out
+}
+
+var referencedMemo = map[*core.Prog]map[*ssa.Function]bool{}
+
+// referencedInModule: some instruction of the module uses f as an operand (calls it or takes its value).
+func referencedInModule(p *core.Prog, f *ssa.Function) bool {
+	m := referencedMemo[p]
+	if m == nil {
+		m = map[*ssa.Function]bool{}
+		var ops []*ssa.Value
+		for _, g := range p.ModFuncs() {
+			for _, b := range g.Blocks {
+				for _, in := range b.Instrs {
+					ops = in.Operands(ops[:0])
+					for _, o := range ops {
+						if o != nil && *o != nil {
+							if fn, ok := (*o).(*ssa.Function); ok {
+								m[fn] = true
+							}
+						}
+					}
+				}
+			}
+		}
+		referencedMemo[p] = m
+	}
+	return m[f]
+}
+
+// ---- SHIFT-REGISTER ----
+//
+// Nesting is unbounded, so whatever an encoder or parser remembers per open
+// container must live in something that grows. A stack type (one with push
+// and pop methods) whose push shifts one of its own integer fields left and
+// stores it back keeps its entries in the bits of one word: entries pushed
+// more than the word's width ago fall off the top, silently.
+func shiftRegisters(p *core.Prog, r *core.Result, in map[string]bool) {
+	n := 0
+	for _, f := range p.ModFuncs() {
+		pk := core.FuncPkg(f)
+		if pk == nil || !in[pk.Name()] || f.Signature.Recv() == nil || f.Blocks == nil {
+			continue
+		}
+		rn := namedOf(f.Signature.Recv().Type())
+		if rn == nil || !hasPushPop(rn) {
+			continue
+		}
+		n++
+		recv := ssa.Value(f.Params[0])
+		for _, b := range f.Blocks {
+			for _, ins := range b.Instrs {
+				st, ok := ins.(*ssa.Store)
+				if !ok {
+					continue
+				}
+				fa, ok := st.Addr.(*ssa.FieldAddr)
+				if !ok || fa.X != recv {
+					continue
+				}
+				// value: (load of the same field) << c, possibly or-ed with something
+				var find func(v ssa.Value, depth int) bool
+				find = func(v ssa.Value, depth int) bool {
+					bo, ok := v.(*ssa.BinOp)
+					if !ok || depth > 3 {
+						return false
+					}
+					if bo.Op == token.SHL {
+						if ld, ok := bo.X.(*ssa.UnOp); ok && ld.Op == token.MUL {
+							if fa2, ok := ld.X.(*ssa.FieldAddr); ok && fa2.X == recv && fa2.Field == fa.Field {
+								return true
+							}
+						}
+						return false
+					}
+					if bo.Op == token.OR || bo.Op == token.ADD || bo.Op == token.XOR {
+						return find(bo.X, depth+1) || find(bo.Y, depth+1)
+					}
+					return false
+				}
+				if find(st.Val, 0) {
+					stt := rn.Underlying().(*types.Struct)
+					r.Fail(".SHIFT-REGISTER", core.FuncKey(f)+"|"+core.FieldName(stt, fa.Field), p.Pos(st.Pos()), fmt.Sprintf("%s keeps the entries of a stack in the bits of the integer field %s (shifted left on every push): entries pushed more than the word's width ago are shifted out, so what was remembered about the outer containers is lost beyond that nesting depth", core.FuncKey(f), core.FieldName(stt, fa.Field)), "")
+				}
+			}
+		}
+	}
+	r.Stats["stack_type_methods_scanned"] = n
 }
